@@ -12,7 +12,7 @@ BIG = 10 ** 4
 @st.composite
 def cases(draw, tier):
     big = tier == "thorough"
-    mode = draw(st.sampled_from(["exact", "exact", "poly", "poly", "cmf", "conserve", "limit", "adaptive", "td", "solver"]))
+    mode = draw(st.sampled_from(["exact", "exact", "poly", "poly", "cmf", "conserve", "limit", "adaptive", "td", "td_adaptive", "solver"]))
     spec = draw(chain.chain_model_specs(2, 5 if big else 4, max_dim=64 if not big else 128))
     terms = draw(gen.hermitian_hamiltonian(spec, max_terms=4))
     c = {"mode": mode, "model": spec, "terms": terms, "q": draw(st.integers(0, 50)), "rng": draw(st.integers(0, 10 ** 6)),
@@ -48,8 +48,16 @@ def cases(draw, tier):
                                                                                   for m in evo.RK_METHODS if m not in evo.EMBEDDED]))
         c["terms_v"] = draw(gen.hermitian_hamiltonian(spec, max_terms=2))
         c["td_freq"] = draw(st.sampled_from([0.5, 1.0, 3.0]))
+    elif mode == "td_adaptive":
+        c["scheme"] = {"fam": "pc", "kind": "pc_tdrk", "rk": draw(st.sampled_from(["RKF45", "Cash-Karp45"]))}
+        c["terms_v"] = draw(gen.hermitian_hamiltonian(spec, max_terms=2))
+        c["td_freq"] = draw(st.sampled_from([1.0, 3.0, 6.0]))
+        c["rtol"] = draw(st.sampled_from([1e-6, 1e-5]))
+        c["guess"] = draw(st.sampled_from([0.02, 0.05, 0.2]))
+        c["hdt"] = draw(st.sampled_from([0.3, 0.5, 1.0, 2.0]))
     elif mode == "solver":
         c["scheme"] = draw(evo.scheme_specs(("ps", "ps2", "cmf")))
+    c["scramble"] = draw(st.booleans())
     return c
 
 
@@ -206,8 +214,31 @@ class C09(Prop):
         return ref / max(np.linalg.norm(ref), 1e-300) * abs(coeff0)
 
     # ---- exact schemes at full bond dimension ---------------------------------------------------------
+    @staticmethod
+    def scramble_gauge(mps, rng):
+        """same state, same bond dimensions and labels, but non-orthonormal (complex) site tensors: insert G G^-1 on every bond,
+        G block-diagonal in the quantum-number labels.  Used for VMF with force_ovlp=True, the documented way to start from a
+        state that is not canonical (to_right=False)."""
+        x = mps.to_complex()
+        x.ensure_left_canonical()  # qn centre at the last site, to_right False
+        n = len(x)
+        for b in range(1, n):
+            lab = np.asarray(x.qn[b])
+            d = lab.shape[0]
+            same = np.all(lab[:, None, :] == lab[None, :, :], axis=-1)
+            G = np.eye(d, dtype=complex) + 0.3 * same * (rng.standard_normal((d, d)) + 1j * rng.standard_normal((d, d)))
+            Gi = np.linalg.inv(G)
+            x[b - 1] = np.tensordot(np.asarray(x[b - 1].array), G, axes=1)
+            x[b] = np.tensordot(Gi, np.asarray(x[b].array), axes=1)
+        return x
+
     def mode_exact(self, case, r, mps, mpo, H, psi0, t, evolve, apply_ref, model, q, spec, use_dm):
         s = case["scheme"]
+        if s["kind"] in ("tdvp_vmf", "tdvp_mu_vmf") and s.get("force_ovlp") and (case.get("scramble") or case["rng"] % 3) and len(mps) > 1:
+            mps0 = mps
+            mps = self.scramble_gauge(mps, np.random.default_rng(case["rng"]))
+            r.check_close("scramble.same_state", chain.dense_of(mps), psi0, 1e-9 * np.linalg.norm(psi0), "harness gauge scrambling changed the state")
+            r.classes.append("vmf.non_canonical_complex_start")
         cfg = evo.make_evolve_config(s)
         w = case["split_w"][: case["nsplit"]]
         dts = [t * x / sum(w) for x in w]
@@ -359,6 +390,52 @@ class C09(Prop):
         got = chain.dense_of(new)
         r.check_close(f"td.{s['kind']}", got, ref, 1e-8 * nrm * max(1.0, t) ** 6, f"{s}: time-dependent H vs dense RK with the same tableau")
         r.classes.append("time_dependent_H")
+
+    def mode_td_adaptive(self, case, r, mps, mpo, H, psi0, t, evolve, apply_ref, model, q, spec, use_dm):
+        """adaptive embedded-RK P&C with a time-dependent Hamiltonian callable: several accepted sub-steps inside one call"""
+        from renormalizer.mps import Mpo
+        from renormalizer.utils import CompressConfig, CompressCriteria
+
+        s = case["scheme"]
+        tv, V = scaled_terms(spec, case["terms_v"], 1.0)
+        if tv is None:
+            r.rejected = "zero perturbation"
+            return
+        w = case["td_freq"]
+        mpo_v = Mpo(model, build_ops(spec, tv))
+
+        def f(tt):
+            return np.cos(w * tt)
+
+        def mpo_t(tt, *a, **k):
+            return mpo.add(mpo_v.scale(f(tt)))
+
+        # dense time-ordered reference: classical RK4 with a fine step (error ~ (dt)^4, far below the tolerance)
+        nfine = int(max(200, 400 * t * (1 + w)))
+        h = t / nfine
+        y = psi0.astype(complex)
+        for k in range(nfine):
+            t0 = k * h
+            k1 = -1j * ((H + f(t0) * V) @ y)
+            if np.linalg.norm(k1) <= 1e-6 * np.linalg.norm(psi0):
+                r.rejected = "the time derivative vanishes along the trajectory (exactly zero state, DESIGN §3.4)"
+                return
+            k2 = -1j * ((H + f(t0 + h / 2) * V) @ (y + h / 2 * k1))
+            k3 = -1j * ((H + f(t0 + h / 2) * V) @ (y + h / 2 * k2))
+            k4 = -1j * ((H + f(t0 + h) * V) @ (y + h * k3))
+            y = y + h / 6 * (k1 + 2 * k2 + 2 * k3 + k4)
+        rtol = case["rtol"]
+        cfg = evo.make_evolve_config(s, adaptive=True, guess_dt=case["guess"], adaptive_rtol=rtol)
+        mps.evolve_config = cfg
+        mps.compress_config = CompressConfig(CompressCriteria.fixed, max_bonddim=BIG)
+        new = mps.evolve(mpo_t, t, normalize=False)
+        got = chain.dense_of(new)
+        nrm = np.linalg.norm(psi0)
+        tol = (2000.0 * rtol * max(1.0, t) + 5e-5) * nrm
+        err = np.linalg.norm(got - y)
+        r.resid("td_adaptive.err_over_tol", err / tol, 1.0)
+        r.check(f"td_adaptive.{s['rk']}", err <= tol, f"{s} rtol={rtol} guess={case['guess']} t={t} w={w}: error {err:.3e} > {tol:.3e}")
+        r.classes.append("time_dependent_H.adaptive")
 
     # ---- one-site PS conserves norm and energy at any bond dimension ----------------------------------------------------------
     def mode_conserve(self, case, r, mps, mpo, H, psi0, t, evolve, apply_ref, model, q, spec, use_dm):
